@@ -124,11 +124,17 @@ def fresh(av, env):
     return _run_worker({"mode": "fresh", "avail": list(av), "env": env})
 
 
-def table_jobs():
-    """The reduced (one-factor-at-a-time + a few crosses) grid used for the kernel-checked table."""
+FULL_BACKEND_AVAILS = [(True, True, True, True), (False, False, False, False), (False, False, True, True),
+                       (False, True, False, True)]
+
+
+def table_jobs(av):
+    """The reduced grid used for the kernel-checked table (string comparison is slow in the Lean kernel): flags vary
+    one at a time plus a few crosses; explicit backend names (where the code does not look at module availability) only
+    under four availability combinations, unset/"auto" under all sixteen.  correspond() runs the full product."""
     pairs = [(p, None) for p in FLAG_ENV] + [(None, d) for d in FLAG_ENV[1:]] + FLAG_CROSS
     jobs = []
-    for b in BACKEND_ENV:
+    for b in (BACKEND_ENV if av in FULL_BACKEND_AVAILS else BACKEND_ENV[:2]):
         for p, d in pairs:
             jobs.append({"infer": True, "env": _env(b, None, p, d)})
     for path in ("/opt/sugar/bin/sugar", ""):
@@ -243,8 +249,8 @@ def gen(ctx):
         rows.append("  (" + lstr(w) + ", " + (".ok " + lbool(v) if k == "ok" else ".error " + lstr(v)) + ")")
     L.append(",\n".join(rows) + "]")
     L.append("")
-    jobs = table_jobs()
-    res = batch({av: jobs for av in AVAILS})
+    jobs_by = {av: table_jobs(av) for av in AVAILS}
+    res = batch(jobs_by)
     L.append("/-- `_detect_backend()` with (cspuz_core, enigma_csp, pycsugar, z3) importable or not. -/")
     L.append("def detectTable : List (Avail × String) := [")
     L.append(",\n".join("  (" + lavail(av) + ", " + lstr(res[av][0]) + ")" for av in AVAILS) + "]")
@@ -256,7 +262,7 @@ def gen(ctx):
         L.append(f"/-- `Config(infer_from_env)` with availability {dict(zip(MODS, av))}. -/")
         L.append(f"def {nm} : List ConfigRow := [")
         rows = []
-        for j, r in zip(jobs, res[av][1]):
+        for j, r in zip(jobs_by[av], res[av][1]):
             e = j["env"]
             rows.append("  ⟨" + ", ".join([lbool(j["infer"]), lavail(av), lopt(e[K_BACKEND]), lopt(e[K_PATH]),
                                            lopt(e[K_PRIM]), lopt(e[K_DIV]), lcfg(r)]) + "⟩")
@@ -272,4 +278,600 @@ def gen(ctx):
         with open(path, "w", encoding="utf-8") as f:
             f.write(new)
     ctx.extra["gen"] = (f"Gen/C20Tables.lean: {len(NAMES + JUNK_NAMES)} dispatch rows, {len(set(WORDS))} _strtobool rows, "
-                        f"16 detection rows, {16 * len(jobs)} Config() rows (16 subprocesses with planted sys.modules)")
+                        f"16 detection rows, {sum(len(v) for v in jobs_by.values())} Config() rows (16 subprocesses with planted sys.modules)")
+
+
+# ------------------------------------------------------------------ wire helpers
+
+
+def ws(s):
+    return "N" if s is None else ["s"] + [ord(c) for c in s]
+
+
+def rs(t):
+    """decode a driver string"""
+    if t == "N":
+        return None
+    assert isinstance(t, list) and t and t[0] == "s", t
+    return "".join(chr(int(x)) for x in t[1:])
+
+
+def _cfg_line(op, j, av):
+    e = j["env"]
+    infer = True if j["infer"] is None else j["infer"]
+    return sx([op, infer, list(av), ws(e[K_BACKEND]), ws(e[K_PATH]), ws(e[K_PRIM]), ws(e[K_DIV])])
+
+
+def _cfg_canon_real(r):
+    if "err" in r:
+        return ["err", r["err"]]
+    return ["ok"] + list(r["ok"])
+
+
+def _cfg_canon_model(out):
+    t = core.parse_sx(out)
+    if t[0] == "err":
+        return ["err", t[1]]
+    return ["ok", rs(t[1]), rs(t[2]), t[3] == "T", t[4] == "T"]
+
+
+# ------------------------------------------------------------------ independent oracle (from the property text)
+
+
+def case_variants(word):
+    return {"".join(p) for p in itertools.product(*[(c.lower(), c.upper()) for c in word])}
+
+
+TRUE_WORDS = case_variants("true") | {"1"}
+FALSE_WORDS = case_variants("false") | {"0"}
+
+
+def oracle_parse(s):
+    if s in TRUE_WORDS:
+        return True
+    if s in FALSE_WORDS:
+        return False
+    raise ValueError(s)
+
+
+def oracle_config(av, env, infer):
+    """What Config() must be, or ["err","ValueError"]."""
+    get = (lambda k: env.get(k)) if infer else (lambda k: None)
+    b = get(K_BACKEND)
+    if b is None or b == "auto":
+        b = "sugar"
+        for name, ok in zip(("cspuz_core", "enigma_csp", "csugar", "z3"), av):
+            if ok:
+                b = name
+                break
+    try:
+        p = oracle_parse(get(K_PRIM)) if get(K_PRIM) is not None else b in ("csugar", "enigma_csp", "cspuz_core")
+        d = oracle_parse(get(K_DIV)) if get(K_DIV) is not None else b in ("enigma_csp", "cspuz_core")
+    except ValueError:
+        return ["err", "ValueError"]
+    return ["ok", b, get(K_PATH), p, d]
+
+
+def oracle_dispatch(arg, default, path):
+    """arg: None | ("name", s) | ("cls", k).  Returns (class name, entry) or ("err","ValueError")."""
+    if arg is not None and arg[0] == "cls":
+        return [f"custom{arg[1]}", ["custom", arg[1]]]
+    name = default if arg is None else arg[1]
+    if name not in CLASS_OF:
+        return ["err", "ValueError"]
+    entry = {"sugar": ["subprocess", path or "sugar"], "sugar_extended": ["subprocess", path or "sugar"],
+             "z3": "z3", "csugar": ["module", "pycsugar"], "enigma_csp": ["module", "enigma_csp"],
+             "cspuz_core": ["module", "cspuz_core"]}[name]
+    return [CLASS_OF[name], entry]
+
+
+def oracle_native(fn, arg, f1, f2, acyclic):
+    flag = arg if arg is not None else (f2 if fn == "vgborders" else f1)
+    return bool(flag) and not (fn == "avc" and acyclic)
+
+
+# ------------------------------------------------------------------ real Solver dispatch, observed at the entry points
+
+
+class _Recorder:
+    def __init__(self):
+        self.events = []
+
+    def hit(self, entry, depth=2):
+        f = sys._getframe(depth)
+        who = None
+        for _ in range(4):
+            if f is None:
+                break
+            if "self" in f.f_locals and type(f.f_locals["self"]).__module__.startswith("cspuz.backend"):
+                who = type(f.f_locals["self"]).__name__
+                break
+            f = f.f_back
+        self.events.append((who, entry))
+
+
+class _Z3Proxy:
+    def __init__(self, real, rec):
+        object.__setattr__(self, "_real", real)
+        object.__setattr__(self, "_rec", rec)
+
+    def __getattr__(self, name):
+        self._rec.hit("z3")
+        return getattr(self._real, name)
+
+
+def real_dispatch(arg, default, path, method):
+    """Run the real Solver.<method>(backend=...) with config.default_backend/backend_path assigned; returns
+    [class name, entry] or ["err", name]; extra inconsistencies are returned as ["bad", text]."""
+    import cspuz
+    from cspuz import Solver
+    import cspuz.backend.sugar_like as SL
+    import cspuz.backend.z3 as Z3M
+    import importlib
+    cfg = cspuz.config
+    rec = _Recorder()
+    saved = (cfg.default_backend, cfg.backend_path, SL.run_subprocess, Z3M.z3,
+             {m: sys.modules.get(m, "absent") for m in MODS[:3]})
+
+    def fake_run(args, input, timeout=None):
+        rec.hit(["subprocess", args[0]] if list(args[1:]) == ["/dev/stdin"] else ["subprocess-odd", list(args)])
+        return "s UNSATISFIABLE unsat\n"
+
+    class Mock:
+        made = []
+
+        def __init__(self, variables):
+            Mock.made.append(len(variables))
+
+        def add_constraint(self, c):
+            pass
+
+        def solve(self):
+            rec.events.append(("custom1", ["custom", 1]))
+            return False
+
+        def solve_irrefutably(self, keys):
+            rec.events.append(("custom1", ["custom", 1]))
+            return False
+    try:
+        cfg.default_backend = default
+        cfg.backend_path = path
+        SL.run_subprocess = fake_run
+        Z3M.z3 = _Z3Proxy(importlib.import_module("z3"), rec)
+        for m in MODS[:3]:
+            mod = types.ModuleType(m)
+
+            def solver(desc, m=m):
+                rec.hit(["module", m])
+                return "s UNSATISFIABLE unsat\n"
+            mod.solver = solver
+            sys.modules[m] = mod
+        s = Solver()
+        x = s.bool_var()
+        y = s.int_var(0, 2)
+        s.ensure(x.then(y >= 1))
+        s.add_answer_key(x)
+        backend = None if arg is None else (arg[1] if arg[0] == "name" else Mock)
+        try:
+            with warnings.catch_warnings():
+                warnings.simplefilter("ignore")
+                getattr(s, method)(backend) if backend is not None and method == "find_answer" and False else \
+                    getattr(s, method)(backend=backend)
+        except Exception as e:
+            if rec.events:
+                return ["bad", f"{core.err_name(e)} after entry points {rec.events[:3]}"]
+            return ["err", core.err_name(e)]
+        kinds = {(w, json.dumps(e)) for w, e in rec.events}
+        if len(kinds) != 1:
+            return ["bad", f"entry points touched: {sorted(kinds)}"]
+        w, e = rec.events[0]
+        if backend is Mock and len(Mock.made) != 1:
+            return ["bad", f"mock class instantiated {len(Mock.made)} times"]
+        return [w, e]
+    finally:
+        cfg.default_backend, cfg.backend_path, SL.run_subprocess, Z3M.z3 = saved[0], saved[1], saved[2], saved[3]
+        for m, v in saved[4].items():
+            if v == "absent":
+                sys.modules.pop(m, None)
+            else:
+                sys.modules[m] = v
+
+
+def _dispatch_model_canon(out):
+    t = core.parse_sx(out)
+    if t[0] == "err":
+        return ["err", t[1]]
+    e = t[1]
+    if isinstance(e, list):
+        e = [e[0], rs(e[1])] if e[0] in ("subprocess", "module") else [e[0], int(e[1])]
+    return [rs(t[0]), e]
+
+
+DEFAULTS = NAMES + ["auto", "junk_backend", ""]
+ARGS = [None] + [("name", n) for n in NAMES] + [("name", "auto"), ("name", "Sugar"), ("name", ""), ("cls", 1)]
+PATHS = [None, "", "/fake/bin/sugar"]
+
+
+def dispatch_cases(rng, count):
+    cases = [(a, d, p, m) for d in DEFAULTS for a in ARGS for p in PATHS for m in ("find_answer", "solve")]
+    rng.shuffle(cases)
+    return cases if count is None else cases[:count]
+
+
+# ------------------------------------------------------------------ real graph functions, observed on the emitted program
+
+
+GRAPH_VARIANTS = [
+    # (variant, model fn, takes argument, has acyclic)
+    ("_avc", "avc", True, True), ("avc_public", "avc", True, True), ("avc_2d", "avc", True, True),
+    ("nseg_graph", "avc", False, False), ("nseg_1xn", "avc", False, False),
+    ("_divconn", "divconn", True, False), ("divconn_public", "divconn", False, False),
+    ("_cycle", "cycle", True, False), ("cycle_public", "cycle", True, False), ("cycle_frame", "cycle", True, False),
+    ("_path", "path", True, False), ("path_public", "path", True, False),
+    ("_vgborders", "vgborders", True, False), ("vgborders_public", "vgborders", True, False),
+]
+
+
+def real_graph(variant, arg, f1, f2, acyclic, seed):
+    """Calls the real function with config flags (f1, f2) assigned; returns ("ok", progtext) or ("err", name)."""
+    import random
+    import cspuz
+    from cspuz import graph as G
+    from cspuz.array import BoolArray1D, BoolArray2D, IntArray1D
+    from cspuz.grid_frame import BoolGridFrame
+    rng = random.Random(seed)
+    n, edges = graphs.rand_graph(rng, 5, allow_loops=False)
+    m = len(edges)
+    mk = graphs.mk_graph(n, edges)
+    cfg = cspuz.config
+    saved = (cfg.use_graph_primitive, cfg.use_graph_division_primitive)
+    kw = {} if arg == "omit" else {"use_graph_primitive": arg}
+
+    def build(s):
+        bs = [s.bool_var() for _ in range(max(1, n, m))]
+        ints = [s.int_var(0, 2) for _ in range(max(1, n))]
+        if variant == "_avc":
+            return lambda: G._active_vertices_connected(s, bs[:n], mk, acyclic=acyclic, **kw)
+        if variant == "avc_public":
+            return lambda: G.active_vertices_connected(s, bs[:n], mk, acyclic=acyclic, **kw)
+        if variant == "avc_2d":
+            return lambda: G.active_vertices_connected(s, BoolArray2D(bs[:2] * 2, (2, 2)), acyclic=acyclic, **kw)
+        if variant == "nseg_graph":
+            return lambda: G.active_vertices_not_adjacent_and_not_segmenting(s, BoolArray1D(bs[:n]), mk)
+        if variant == "nseg_1xn":
+            return lambda: G.active_vertices_not_adjacent_and_not_segmenting(s, BoolArray2D(bs[:1] * 3, (1, 3)))
+        if variant == "_divconn":
+            return lambda: G._division_connected(s, IntArray1D(ints[:n]), 2, mk, **kw)
+        if variant == "divconn_public":
+            return lambda: G.division_connected(s, IntArray1D(ints[:n]), 2, mk)
+        if variant == "_cycle":
+            return lambda: G._active_edges_single_cycle(s, bs[:m], mk, **kw)
+        if variant == "cycle_public":
+            return lambda: G.active_edges_single_cycle(s, bs[:m], mk, **kw)
+        if variant == "cycle_frame":
+            return lambda: G.active_edges_single_cycle(s, BoolGridFrame(s, 1, 2), **kw)
+        if variant == "_path":
+            return lambda: G._active_edges_single_path(s, bs[:m], mk, **kw)
+        if variant == "path_public":
+            return lambda: G.active_edges_single_path(s, bs[:m], mk, **kw)
+        if variant == "_vgborders":
+            return lambda: G._division_connected_variable_groups_with_borders(
+                s, mk, [None] * n, bs[:m], arg if arg != "omit" else None)
+        if variant == "vgborders_public":
+            return lambda: G.division_connected_variable_groups_with_borders(
+                s, group_size=[None] * n, is_border=bs[:m], graph=mk, **kw)
+        raise KeyError(variant)
+    try:
+        cfg.use_graph_primitive, cfg.use_graph_division_primitive = f1, f2
+        r = graphs.capture(build)
+    finally:
+        cfg.use_graph_primitive, cfg.use_graph_division_primitive = saved
+    if r[0] == "err":
+        return ("err", r[1])
+    return ("ok", r[1])
+
+
+def text_has_native(progtext):
+    return ("(graph_active_vertices_connected " in progtext) or ("(graph_division " in progtext)
+
+
+def graph_cases(nseeds):
+    out = []
+    for variant, fn, takes, has_ac in GRAPH_VARIANTS:
+        for arg in ((None, True, False, "omit") if takes else ("omit",)):
+            for f1 in (True, False):
+                for f2 in (True, False):
+                    for ac in ((False, True) if has_ac else (False,)):
+                        for seed in range(nseeds):
+                            out.append((variant, fn, arg, f1, f2, ac, seed))
+    return out
+
+
+def expected_graph(fn, native):
+    """What the call must do given the resolved route: single_path has only the native route."""
+    if fn == "path" and not native:
+        return ("err", "RuntimeError")
+    return ("ok", native)
+
+
+# ------------------------------------------------------------------ correspondence
+
+
+def _unicode_lower_check():
+    """No non-ASCII character lower-cases to something containing a letter/digit of the four accepted words, so ASCII
+    case folding decides `_strtobool` exactly.  Returns the offending code points."""
+    need = set("truefals10")
+    bad = []
+    for cp in range(128, 0x110000):
+        lo = chr(cp).lower()
+        if not lo or (set(lo) & need):
+            bad.append(cp)
+    return bad
+
+
+def _rand_word(rng):
+    r = rng.random()
+    if r < 0.35:
+        w = rng.choice(["true", "false"])
+        return "".join(c.upper() if rng.random() < 0.5 else c for c in w)
+    if r < 0.5:
+        w = rng.choice(sorted(TRUE_WORDS | FALSE_WORDS))
+        k = rng.randrange(len(w) + 1)
+        return w[:k] + rng.choice([" ", "\t", "e", "1", "0", "\n", "é", "T"]) + w[k + (rng.random() < 0.5):]
+    if r < 0.8:
+        return "".join(rng.choice("truefalsTRUEFALS10 yYnNoO") for _ in range(rng.randint(0, 6)))
+    return "".join(chr(rng.choice([rng.randrange(32, 127), rng.randrange(128, 0x3000), rng.randrange(0x10000, 0x10400)]))
+                   for _ in range(rng.randint(1, 5)))
+
+
+def correspond(ctx):
+    rng = ctx.rng
+    drv = core.Driver()
+    ctx.extra["rule"] = (
+        "strings: fixed word list + seeded random case variants / near misses / Unicode; Config(): all 16 availability "
+        "combinations x {unset, auto, six names, junk, '', 'Auto'} x 7x7 flag values (+ backend_path, infer_from_env "
+        "variants, random words) run in subprocesses with planted sys.modules, plus true fresh-import subprocesses on a "
+        "seeded sample; Solver.find_answer/solve with backend= None/name/junk/mock class under assigned "
+        "config.default_backend/backend_path, observed at run_subprocess / fake module .solver / z3 proxy; every graph "
+        "function (private and public forms) x argument {omitted, None, True, False} x both config flags x acyclic on "
+        "random graphs, observed on the emitted program. Compared with the Lean model through the driver. Non-trivial = "
+        "distinct input tuple whose outcome is not an exception")
+    ctx.extra["trusted_base"] = TRUSTED
+    ctx.extra["assumptions"] = ASSUMPTIONS
+
+    # -- A. strings
+    bad = _unicode_lower_check()
+    ctx.count("unicode-codepoints-checked", 0x110000 - 128)
+    if bad:
+        ctx.disagree("unicode-lower", codepoints=bad[:20],
+                     what="a non-ASCII character lower-cases into the alphabet of true/false/1/0: ASCII folding is not exact")
+    words = sorted(set(WORDS + NAMES + JUNK_NAMES)) + [_rand_word(rng) for _ in range(ctx.n(1500, 20000))]
+    lines = []
+    for w in words:
+        lines += [sx(["c20_strtobool", ws(w)]), sx(["c20_parsebool", ws(w)]), sx(["c20_byname", ws(w)])]
+    outs = drv.run(lines)
+    for i, w in enumerate(words):
+        k, v = _real_strtobool(w)
+        real = ["err", v] if k == "err" else v
+        m1, m2, m3 = (core.parse_sx(o) for o in outs[3 * i:3 * i + 3])
+        canon = lambda t: t if isinstance(t, list) else (t == "T")
+        ctx.count("strtobool:" + ("err" if k == "err" else str(v)))
+        ctx.case({"_strtobool": w, "real": real}, ("w", w) if k == "ok" else None)
+        if canon(m1) != real or canon(m2) != real:
+            ctx.disagree("strtobool", word=w, real=real, model=canon(m1), spec=canon(m2))
+        k, v = _real_by_name(w)
+        real = ["err", v] if k == "err" else v
+        mm = m3 if m3[0] == "err" else rs(m3)
+        if mm != real:
+            ctx.disagree("by_name", name=w, real=real, model=mm)
+
+    # -- B. Config(): full grid, one subprocess per availability combination
+    jobs_by = {}
+    for av in AVAILS:
+        jobs = full_jobs()
+        for _ in range(ctx.n(20, 200)):
+            jobs.append({"infer": rng.choice([True, True, None, False]),
+                         "env": _env(rng.choice(BACKEND_ENV + [_rand_word(rng)]), rng.choice([None, "", "/p q"]),
+                                     rng.choice(FLAG_ENV + [_rand_word(rng)]), rng.choice(FLAG_ENV + [_rand_word(rng)]))})
+        jobs_by[av] = jobs
+    res = batch(jobs_by)
+    lines = []
+    for av in AVAILS:
+        lines.append(sx(["c20_detect", list(av)]))
+        for j in jobs_by[av]:
+            lines += [_cfg_line("c20_init", j, av), _cfg_line("c20_expected", j, av)]
+    outs = iter(drv.run(lines))
+    for av in AVAILS:
+        det = rs(core.parse_sx(next(outs)))
+        if det != res[av][0]:
+            ctx.disagree("detect", avail=list(av), real=res[av][0], model=det)
+        for j, r in zip(jobs_by[av], res[av][1]):
+            real = _cfg_canon_real(r)
+            m1, m2 = _cfg_canon_model(next(outs)), _cfg_canon_model(next(outs))
+            ctx.count("config:" + ("err:" + real[1] if real[0] == "err" else "ok"))
+            key = (av, json.dumps(j, sort_keys=True))
+            ctx.case({"avail": dict(zip(MODS, av)), "env": {k: v for k, v in j["env"].items() if v is not None},
+                      "infer_from_env": j["infer"], "real": real}, key if real[0] == "ok" else None)
+            if m1 != real or m2 != real:
+                ctx.disagree("config", avail=list(av), job=j, real=real, model=m1, spec=m2)
+
+    # -- C. fresh imports on a sample (module-level `config = Config()` at import time)
+    sample = []
+    for _ in range(ctx.n(16, 80)):
+        av = rng.choice(AVAILS)
+        env = _env(rng.choice(BACKEND_ENV), rng.choice([None, "/p"]), rng.choice(FLAG_ENV), rng.choice(FLAG_ENV))
+        sample.append((av, env))
+    with ThreadPoolExecutor(max_workers=8) as ex:
+        fres = list(ex.map(lambda t: fresh(*t), sample))
+    outs = drv.run([_cfg_line("c20_init", {"infer": True, "env": env}, av) for av, env in sample])
+    for (av, env), r, o in zip(sample, fres, outs):
+        real = _cfg_canon_real(r)
+        model = _cfg_canon_model(o)
+        ctx.count("fresh-import:" + real[0])
+        ctx.case({"fresh import": True, "avail": dict(zip(MODS, av)), "env": env, "real": real}, None)
+        if real != model:
+            ctx.disagree("config-fresh", avail=list(av), env=env, real=real, model=model)
+        if "ok" in r and not r.get("same", False):
+            ctx.disagree("config-object", what="cspuz.config is not cspuz.configuration.config")
+
+    # -- D. Solver dispatch
+    cases = dispatch_cases(rng, ctx.n(400, None))
+    outs = drv.run([sx(["c20_backend", "N" if a is None else ([a[0], ws(a[1])] if a[0] == "name" else ["cls", a[1]]),
+                        ws(d), ws(p)]) for a, d, p, m in cases])
+    for (a, d, p, m), o in zip(cases, outs):
+        real = real_dispatch(a, d, p, m)
+        model = _dispatch_model_canon(o)
+        ctx.count("dispatch:" + (real[0] if real[0] in ("err", "bad") else "ok"))
+        ctx.case({"method": m, "backend": a, "config.default_backend": d, "config.backend_path": p, "real": real},
+                 ("d", str(a), d, p, m) if real[0] not in ("err", "bad") else None)
+        if real != model:
+            ctx.disagree("dispatch", method=m, arg=a, default=d, path=p, real=real, model=model)
+
+    # -- E. graph functions
+    gcases = graph_cases(ctx.n(2, 8))
+    reals = [real_graph(v, arg, f1, f2, ac, seed) for v, fn, arg, f1, f2, ac, seed in gcases]
+    lines = []
+    for (v, fn, arg, f1, f2, ac, seed), r in zip(gcases, reals):
+        lines.append(sx(["c20_native", fn, None if arg == "omit" else arg, f1, f2, ac]))
+        lines.append("(c20_hasnative " + r[1] + ")" if r[0] == "ok" else "(echo skip)")
+    outs = drv.run(lines)
+    for i, ((v, fn, arg, f1, f2, ac, seed), r) in enumerate(zip(gcases, reals)):
+        native = outs[2 * i] == "T"
+        want = expected_graph(fn, native)
+        got = ("ok", text_has_native(r[1])) if r[0] == "ok" else r
+        ctx.count(f"graph:{fn}:" + ("native" if got == ("ok", True) else "aux" if got == ("ok", False) else "err"))
+        ctx.case({"fn": v, "use_graph_primitive": arg, "config.use_graph_primitive": f1,
+                  "config.use_graph_division_primitive": f2, "acyclic": ac, "real": list(got)},
+                 (v, str(arg), f1, f2, ac, seed) if r[0] == "ok" else None)
+        if got != want:
+            ctx.disagree("graph-native", fn=v, arg=arg, f1=f1, f2=f2, acyclic=ac, seed=seed, real=list(got), model=list(want))
+        if r[0] == "ok" and (outs[2 * i + 1] == "T") != got[1]:
+            ctx.disagree("hasNative-def", fn=v, text=r[1][:500], lean=outs[2 * i + 1], python=got[1])
+
+
+TRUSTED = [
+    "str.lower() is modelled by ASCII case folding (Lean Char.toLower); the harness checks on every run, for all 1.1M "
+    "non-ASCII code points of the running CPython, that lower() never produces a character of true/false/1/0, which makes "
+    "the folding exact for _strtobool; the exception message is not modelled",
+    "`import m` succeeding / raising ImportError is abstracted to one Boolean per probed module (a module whose import "
+    "raises some other exception is out of scope); os.environ is abstracted to a function String -> Option String",
+    "backend classes are identified by __name__; 'which backend receives the solve' is observed at "
+    "cspuz.backend.sugar_like.run_subprocess (temporarily replaced in-process), at fake pycsugar/enigma_csp/cspuz_core "
+    "modules planted in sys.modules, and at a recording proxy around the real z3 module",
+    "native operator presence is observed on the printed program (harness/exprio.pexpr) and cross-checked against the "
+    "Lean definition Spec.progHasNative on the same program",
+]
+ASSUMPTIONS = [
+    "C20_primitive: caller-supplied expressions contain no native graph operator themselves",
+    "config attributes hold values of their declared types (str / Optional[str] / bool) when read",
+]
+
+
+# ------------------------------------------------------------------ search: real code vs the oracle from the property text
+
+
+def search(ctx, why, quick=False):
+    found = {}
+
+    def add(sig, what, data):
+        if sig not in found:
+            found[sig] = Finding(sig, what, data)
+    # strict parsing / names
+    for w in sorted(set(WORDS + NAMES + JUNK_NAMES)) + sorted(TRUE_WORDS | FALSE_WORDS):
+        k, v = _real_strtobool(w)
+        try:
+            want = oracle_parse(w)
+        except ValueError:
+            want = ["err", "ValueError"]
+        got = ["err", v] if k == "err" else v
+        if got != want:
+            add("config:strict-parse", f"_strtobool({w!r}) gives {got}, the property requires {want}",
+                {"kind": "strtobool", "word": w, "got": got, "want": want})
+        k, v = _real_by_name(w)
+        got = ["err", v] if k == "err" else v
+        want = CLASS_OF.get(w, ["err", "ValueError"])
+        if got != want:
+            add("dispatch:name-table", f"_get_backend_by_name({w!r}) gives {got}, expected {want}",
+                {"kind": "by_name", "name": w, "got": got, "want": want})
+    # configuration grid
+    jobs = full_jobs()
+    res = batch({av: jobs for av in AVAILS})
+    for av in AVAILS:
+        want_det = oracle_config(av, {}, True)[1]
+        if res[av][0] != want_det:
+            add("config:detect-order", f"_detect_backend() with importable={dict(zip(MODS, av))} returns {res[av][0]!r}, "
+                f"the documented priority gives {want_det!r}", {"kind": "detect", "avail": list(av), "got": res[av][0], "want": want_det})
+        for j, r in zip(jobs, res[av][1]):
+            infer = True if j["infer"] is None else j["infer"]
+            got = _cfg_canon_real(r)
+            want = oracle_config(av, j["env"], infer)
+            if got != want:
+                if got[0] == "ok" and want[0] == "ok" and got[1] != want[1]:
+                    sig = "config:default-backend"
+                elif got[0] != want[0]:
+                    sig = "config:strict-parse-env"
+                elif got[2] != want[2]:
+                    sig = "config:backend-path"
+                else:
+                    sig = "config:flag-default"
+                add(sig, f"Config({'' if j['infer'] is None else 'infer_from_env=' + str(j['infer'])}) with importable="
+                    f"{dict(zip(MODS, av))} env={ {k: v for k, v in j['env'].items() if v is not None} } gives {got}, "
+                    f"the property requires {want}",
+                    {"kind": "config", "avail": list(av), "job": j, "got": got, "want": want})
+    # fresh import on a few
+    for av, env in [((False, False, True, True), _env(None, None, None, None)),
+                    ((True, True, True, True), _env("auto", None, "0", None)),
+                    ((False, False, False, False), _env("csugar", "/p", None, "yes"))]:
+        got = _cfg_canon_real(fresh(av, env))
+        want = oracle_config(av, env, True)
+        if got != want:
+            add("config:import-time", f"importing cspuz with importable={dict(zip(MODS, av))} env={env}: cspuz.config is {got}, "
+                f"expected {want}", {"kind": "fresh", "avail": list(av), "env": env, "got": got, "want": want})
+    # dispatch
+    for a, d, p, m in dispatch_cases(ctx.rng, None):
+        got = real_dispatch(a, d, p, m)
+        want = oracle_dispatch(a, d, p)
+        if got != want:
+            sig = "dispatch:class" if (got[0] != want[0]) else "dispatch:entry"
+            add(sig, f"Solver.{m}(backend={a}) with config.default_backend={d!r}, backend_path={p!r}: backend/entry {got}, "
+                f"expected {want}", {"kind": "dispatch", "arg": a, "default": d, "path": p, "method": m, "got": got, "want": want})
+    # graph functions
+    for v, fn, arg, f1, f2, ac, seed in graph_cases(2):
+        r = real_graph(v, arg, f1, f2, ac, seed)
+        got = ("ok", text_has_native(r[1])) if r[0] == "ok" else r
+        want = expected_graph(fn, oracle_native(fn, None if arg == "omit" else arg, f1, f2, ac))
+        if got != want:
+            add("graph:native:" + fn, f"{v}(use_graph_primitive={arg}, acyclic={ac}) with config.use_graph_primitive={f1}, "
+                f"use_graph_division_primitive={f2}: native operator emitted / outcome {list(got)}, expected {list(want)}",
+                {"kind": "graph", "variant": v, "fn": fn, "arg": arg, "f1": f1, "f2": f2, "acyclic": ac, "seed": seed,
+                 "got": list(got), "want": list(want)})
+    return list(found.values())
+
+
+def replay(ctx, data):
+    k = data.get("kind")
+    if k == "strtobool":
+        kk, v = _real_strtobool(data["word"])
+        got = ["err", v] if kk == "err" else v
+    elif k == "by_name":
+        kk, v = _real_by_name(data["name"])
+        got = ["err", v] if kk == "err" else v
+    elif k == "detect":
+        got = batch({tuple(data["avail"]): []})[tuple(data["avail"])][0]
+    elif k == "config":
+        got = _cfg_canon_real(batch({tuple(data["avail"]): [data["job"]]})[tuple(data["avail"])][1][0])
+    elif k == "fresh":
+        got = _cfg_canon_real(fresh(tuple(data["avail"]), data["env"]))
+    elif k == "dispatch":
+        a = data["arg"]
+        got = real_dispatch(None if a is None else tuple(a), data["default"], data["path"], data["method"])
+    elif k == "graph":
+        r = real_graph(data["variant"], data["arg"], data["f1"], data["f2"], data["acyclic"], data["seed"])
+        got = ["ok", text_has_native(r[1])] if r[0] == "ok" else list(r)
+    else:
+        return None
+    got = json.loads(json.dumps(got))
+    want = json.loads(json.dumps(data["want"]))
+    if got != want:
+        return Finding("replay:" + str(k), f"still fails: got {got}, expected {want}", data)
+    return None
